@@ -9,6 +9,17 @@
 //! Oracle disagreements are reported with a class prefix obtained by re-running the oracle with
 //! each combination of the known deviations switched on.
 //! `--probe` reads expressions from stdin and prints what the engine binds (replay of witnesses).
+//!
+//! Second half (case ids 2_000_000 + j, regression cases 3_000_000 + j): the built-in FUNCTION CALLS of
+//! sparql/src/function.rs (call_function) and SparqlNumber::{abs, ceil, floor, round}, against coq/C13/FuncModel.v
+//! instantiated with FuncConcrete.v (`fk` = fexpr_ok: bound term / unbound / panic and FILTER's decision; `fr` = frows_ok:
+//! which of several solutions a FILTER keeps, through SparqlDataset::prepare_query + query).  Streams: every implemented
+//! function x every class of terms in every argument position / random nested well-typed calls under the operators /
+//! SUBSTR boundary indices (0, negative, beyond the end, fractional, halves, huge, NaN, +-INF) over ASCII, non-ASCII,
+//! astral, combining and language-tagged strings / the laws a user relies on, evaluated BY THE ENGINE (the oracle: each
+//! must be true) / the functions without implementation / multi-row FILTER / the queries that failed before the repairs
+//! a02a275 and 5a72fb8 with the answers the Recommendations prescribe.  The fresh label of BNODE() and the number drawn
+//! by RAND() are read off the engine's answer and handed to the model as inputs.
 use sophia_api::prelude::*;
 use sophia_api::sparql::{Query, SparqlDataset, SparqlResult};
 use sophia_api::term::TermKind;
@@ -25,6 +36,12 @@ enum T { Iri(String), Bn(String), Lit(String, String), Lang(String, String), Tr(
 const RDF_LANGSTRING: &str = "http://www.w3.org/1999/02/22-rdf-syntax-ns#langString";
 fn x(local: &str) -> String { format!("{XSD}{local}") }
 fn lit(lex: &str, local: &str) -> T { T::Lit(lex.into(), x(local)) }
+/// a SPARQL string literal (Rust's Debug would write \u{301} for a combining mark)
+fn sparql_str(l: &str) -> String {
+    let mut o = String::from("\"");
+    for c in l.chars() { match c { '"' => o.push_str("\\\""), '\\' => o.push_str("\\\\"), '\n' => o.push_str("\\n"), '\r' => o.push_str("\\r"), '\t' => o.push_str("\\t"), c => o.push(c) } }
+    o.push('"'); o
+}
 impl T {
     fn to_st(&self) -> ST {
         match self {
@@ -53,7 +70,7 @@ impl T {
     }
     fn sparql(&self) -> String {
         match self {
-            T::Iri(s) => format!("<{s}>"), T::Bn(s) => format!("_:{s}"), T::Lit(l, d) => format!("{l:?}^^<{d}>"), T::Lang(l, t) => format!("{l:?}@{t}"),
+            T::Iri(s) => format!("<{s}>"), T::Bn(s) => format!("_:{s}"), T::Lit(l, d) => format!("{}^^<{d}>", sparql_str(l)), T::Lang(l, t) => format!("{}@{t}", sparql_str(l)),
             T::Tr(b) => format!("<< {} {} {} >>", b[0].sparql(), b[1].sparql(), b[2].sparql()),
         }
     }
@@ -317,8 +334,17 @@ fn ebv(r: &R, dv: &Dv) -> Result<bool, Er> {
 }
 /// the RDF term of a result, when it does not depend on an open lexical form
 fn term_of(r: &R) -> Option<T> { match r { R::T(t) => Some(t.clone()), R::B(b) => Some(lit(if *b { "true" } else { "false" }, "boolean")), _ => None } }
+/// the same under the deviation INF-OUTPUT: a computed infinity is written "inf" / "-inf", so its TERM is known (and is
+/// the same term as the ill-formed literal "inf"^^xsd:float: RDFterm-equal and sameTerm then answer true)
+fn term_of_dv(r: &R, dv: &Dv) -> Option<T> {
+    match r {
+        R::N(Num::F(f)) if dv.inf_lex && f.is_infinite() => Some(lit(if *f > 0.0 { "inf" } else { "-inf" }, "float")),
+        R::N(Num::Db(f)) if dv.inf_lex && f.is_infinite() => Some(lit(if *f > 0.0 { "inf" } else { "-inf" }, "double")),
+        _ => term_of(r),
+    }
+}
 fn rdfterm_equal(a: &R, b: &R, dv: &Dv) -> Result<bool, Er> {
-    match (term_of(a), term_of(b)) {
+    match (term_of_dv(a, dv), term_of_dv(b, dv)) {
         (Some(s), Some(o)) => if s.same(&o) { Ok(true) } else if s.is_lit() && o.is_lit() { Err(Er::Type) } else { Ok(false) },
         // a computed number (valid lexical form, numeric datatype) against something that is not a numeric value
         (s, o) => match s.or(o) { None => Err(Er::Unknown), Some(t) => match classify(&t, dv) {
@@ -380,10 +406,10 @@ fn eval(e: &E, pool: &[T], mu: &[Option<usize>; 4], dv: &Dv) -> Res {
             let (a, b) = match (ev(a), ev(b)) { (Err(Er::Type), _) | (_, Err(Er::Type)) => return Err(Er::Type), (a, b) => (a?, b?) };
             match o {
                 B2::Eq => eq(&a, &b, dv).map(R::B),
-                B2::SameTerm => match (term_of(&a), term_of(&b)) {
+                B2::SameTerm => match (term_of_dv(&a, dv), term_of_dv(&b, dv)) {
                     (Some(s), Some(t)) => Ok(R::B(s.same(&t))),
                     // a computed number or STR(number) against a term: decided only if the datatypes differ
-                    (s, t) => match s.or(t) { Some(T::Lit(_, d)) => { let other = if term_of(&a).is_none() { &a } else { &b }; let dt = match other { R::N(n) => num_dt(n), _ => x("string") }; if d != dt { Ok(R::B(false)) } else { Err(Er::Unknown) } } Some(_) => Ok(R::B(false)), None => Err(Er::Unknown) },
+                    (s, t) => match s.or(t) { Some(T::Lit(_, d)) => { let other = if term_of_dv(&a, dv).is_none() { &a } else { &b }; let dt = match other { R::N(n) => num_dt(n), _ => x("string") }; if d != dt { Ok(R::B(false)) } else { Err(Er::Unknown) } } Some(_) => Ok(R::B(false)), None => Err(Er::Unknown) },
                 },
                 B2::Gt | B2::Ge | B2::Lt | B2::Le => rel(*o, &a, &b, dv).map(R::B),
                 _ => { let (x, y) = match (num_of(&a, dv), num_of(&b, dv)) { (Err(Er::Type), _) | (_, Err(Er::Type)) => return Err(Er::Type), (x, y) => (x?, y?) }; arith(*o, &x, &y).map(R::N) }
@@ -506,8 +532,25 @@ fn pool() -> Vec<(&'static str, T)> {
     for b in ["b1", "b2"] { p.push(("bnode", T::Bn(b.into()))) }
     p.push(("triple", T::Tr(Box::new([T::Iri("http://x/a".into()), T::Iri("http://x/p".into()), lit("1", "integer")]))));
     p.push(("triple", T::Tr(Box::new([T::Bn("b1".into()), T::Iri("http://x/p".into()), T::Lang("a".into(), "en".into())]))));
+    // ---- classes used by the function-call streams only (FIRST_FN_CLASS): every string kind ----
+    for l in ["abcabc", "ABC", "aBc", "hello world", "12345", "x-y_z.~", "a/b?c=d&e", "100%", " ", "bc", "c", "ab", "A", "abc def"] { p.push(("fascii", lit(l, "string"))) }
+    for l in ["stra\u{df}e", "a\u{e9}", "\u{e9}a", "\u{65e5}\u{672c}\u{8a9e}", "\u{1f600}", "a\u{1f600}b", "e\u{301}", "\u{3a3}\u{391}\u{3a3}", "\u{3c3}\u{3b1}\u{3c2}", "\u{fb01}n", "\u{130}", "\u{414}\u{434}", "\u{df}", "\u{10428}\u{10400}", "\u{212a}", "\u{b5}\u{ff}"] { p.push(("funi", lit(l, "string"))) }
+    for (l, t) in [("abc", "en"), ("abc", "EN"), ("abc", "en-US"), ("abc", "fr"), ("bc", "en"), ("", "fr"), ("stra\u{df}e", "de"), ("\u{e9}a", "fr"), ("ABC", "en"), ("b", "En"), ("c", "en-us"), ("\u{1f600}", "zxx")] { p.push(("flang", T::Lang(l.into(), t.into()))) }
+    for l in ["en", "EN", "en-US", "fr", "de-CH-1996", "", "x", "en-", "1en", "e n", "zh-Hant", "-en", "e\u{301}"] { p.push(("ftag", lit(l, "string"))) }
+    for l in ["*", "en", "EN", "en-us", "fr", "", "en-", "*-x", "de-ch", "e", "en-US-x"] { p.push(("frange", lit(l, "string"))) }
+    for l in ["http://x/a", "tag:x", "urn:x:\u{e9}", "mailto:a@b", "http://x/%41", "HTTP://X/A#f"] { p.push(("firi-abs", lit(l, "string"))) }
+    for l in ["a", "../rel", "#frag", "//host/p", "?q", "", "a/b"] { p.push(("firi-rel", lit(l, "string"))) }
+    for l in ["http://x/ y", "http://x/%zz", "http://x/<a>", "a b", "http://x/a|b", "a\\b", "%", "http://x/\u{7f}"] { p.push(("firi-bad", lit(l, "string"))) }
+    for l in ["", "a", "b", "bc", "abc", "c", "\u{e9}", "\u{1f600}", "\u{df}", "x", "A", "ab", "ca", "\u{301}", " "] { p.push(("fneedle", lit(l, "string"))) }
+    for l in ["", "abc", "A-Z_a.z~0", "x-y_z.~"] { p.push(("funres", lit(l, "string"))) }
+    for l in ["3.0", "-3.0", "2.5", "0.5", "-0.5", "-2.5", "3.5", "-3.5", "2.4", "2.6", "-2.4", "-2.6", "7.0", "-7.0", "123456789012345678901.5", "-0.0000001", "0.49", "0.51", "4.0"] { p.push(("fdec", lit(l, "decimal"))) }
+    for l in ["-2.5e0", "-0.5e0", "0.5e0", "-1.5e0", "1.5e0", "-0.4e0", "0.49999999999999994e0", "4503599627370497e0", "3.5e0", "-3.5e0", "1e30", "-1e30", "1e300", "2.4e0", "-2.6e0", "4e0"] { p.push(("fdbl", lit(l, "double"))) }
+    for l in ["-2.5", "-0.5", "2.5", "0.5", "8388609", "-1.5", "1e30", "0.3"] { p.push(("fflt", lit(l, "float"))) }
+    for l in ["-5", "100", "2020", "4", "5", "12", "31", "23", "59", "60"] { p.push(("fint", lit(l, "integer"))) }
+    for d in ["double", "string", "integer"] { p.push(("fdatatype", T::Iri(x(d)))) }
     p
 }
+const FIRST_FN_CLASS: &str = "fascii";
 /// inline constants must be writable in a query and survive spargebra unchanged (it lower-cases language tags)
 fn inlinable(t: &T) -> bool { match t { T::Iri(_) | T::Lit(..) => true, T::Lang(_, tag) => *tag == tag.to_ascii_lowercase(), _ => false } }
 
@@ -539,10 +582,116 @@ impl<'a> Gen<'a> {
         }
     }
 }
+
+// ------------------------------------------------------------------------------------------
+// function calls (sparql/src/function.rs): expressions over the operators above plus calls
+// ------------------------------------------------------------------------------------------
+#[derive(Clone, Copy, Debug, PartialEq, Eq)]
+enum Fu { Str, Lang, LangMatches, Datatype, Iri, BNode, Rand, Abs, Ceil, Floor, Round, Concat, SubStr, StrLen, Replace, UCase, LCase, EncodeForUri, Contains, StrStarts, StrEnds, StrBefore, StrAfter,
+    Year, Month, Day, Hours, Minutes, Seconds, Timezone, Tz, Now, Uuid, StrUuid, Md5, Sha1, Sha256, Sha384, Sha512, StrLang, StrDt, IsIri, IsBlank, IsLiteral, IsNumeric, Regex, Triple, Subject, Predicate, Object, IsTriple, Custom }
+const IMPLEMENTED: [Fu; 34] = [Fu::IsTriple, Fu::Str, Fu::Lang, Fu::LangMatches, Fu::Datatype, Fu::Iri, Fu::BNode, Fu::Rand, Fu::Abs, Fu::Ceil, Fu::Floor, Fu::Round, Fu::Concat, Fu::SubStr, Fu::StrLen, Fu::UCase, Fu::LCase, Fu::EncodeForUri,
+    Fu::Contains, Fu::StrStarts, Fu::StrEnds, Fu::StrBefore, Fu::StrAfter, Fu::Year, Fu::Month, Fu::Day, Fu::Hours, Fu::Minutes, Fu::Seconds, Fu::IsIri, Fu::IsBlank, Fu::IsLiteral, Fu::IsNumeric, Fu::Triple];
+const UNIMPLEMENTED: [Fu; 18] = [Fu::Replace, Fu::Regex, Fu::StrLang, Fu::StrDt, Fu::Timezone, Fu::Tz, Fu::Now, Fu::Uuid, Fu::StrUuid, Fu::Md5, Fu::Sha1, Fu::Sha256, Fu::Sha384, Fu::Sha512, Fu::Subject, Fu::Predicate, Fu::Object, Fu::Custom];
+impl Fu {
+    fn sparql(self) -> &'static str {
+        match self { Fu::Str => "STR", Fu::Lang => "LANG", Fu::LangMatches => "LANGMATCHES", Fu::Datatype => "DATATYPE", Fu::Iri => "IRI", Fu::BNode => "BNODE", Fu::Rand => "RAND", Fu::Abs => "ABS", Fu::Ceil => "CEIL", Fu::Floor => "FLOOR", Fu::Round => "ROUND",
+            Fu::Concat => "CONCAT", Fu::SubStr => "SUBSTR", Fu::StrLen => "STRLEN", Fu::Replace => "REPLACE", Fu::UCase => "UCASE", Fu::LCase => "LCASE", Fu::EncodeForUri => "ENCODE_FOR_URI", Fu::Contains => "CONTAINS", Fu::StrStarts => "STRSTARTS", Fu::StrEnds => "STRENDS",
+            Fu::StrBefore => "STRBEFORE", Fu::StrAfter => "STRAFTER", Fu::Year => "YEAR", Fu::Month => "MONTH", Fu::Day => "DAY", Fu::Hours => "HOURS", Fu::Minutes => "MINUTES", Fu::Seconds => "SECONDS", Fu::Timezone => "TIMEZONE", Fu::Tz => "TZ", Fu::Now => "NOW",
+            Fu::Uuid => "UUID", Fu::StrUuid => "STRUUID", Fu::Md5 => "MD5", Fu::Sha1 => "SHA1", Fu::Sha256 => "SHA256", Fu::Sha384 => "SHA384", Fu::Sha512 => "SHA512", Fu::StrLang => "STRLANG", Fu::StrDt => "STRDT", Fu::IsIri => "isIRI", Fu::IsBlank => "isBLANK",
+            Fu::IsLiteral => "isLITERAL", Fu::IsNumeric => "isNUMERIC", Fu::Regex => "REGEX", Fu::Triple => "TRIPLE", Fu::Subject => "SUBJECT", Fu::Predicate => "PREDICATE", Fu::Object => "OBJECT", Fu::IsTriple => "isTRIPLE",
+            Fu::Custom => "<http://www.w3.org/2001/XMLSchema#integer>" }
+    }
+    /// the name used in the known-finding class FUNC-NOT-IMPLEMENTED-SILENT(<NAME>)
+    fn kf_name(self) -> String { if self == Fu::Custom { "CUSTOM".into() } else { self.sparql().to_ascii_uppercase() } }
+    fn coq(self) -> String { if self == Fu::Custom { format!("(FnCustom {})", coq_str(&x("integer"))) } else { format!("Fn{self:?}") } }
+}
+#[derive(Clone, Debug)]
+enum FE { E(E), Call(Fu, Vec<FE>), Not(Box<FE>), Bin(B2, Box<FE>, Box<FE>), If(Box<FE>, Box<FE>, Box<FE>), Coalesce(Vec<FE>) }
+fn fb(e: FE) -> Box<FE> { Box::new(e) }
+fn fbin(o: B2, a: FE, b: FE) -> FE { FE::Bin(o, fb(a), fb(b)) }
+fn call(f: Fu, args: Vec<FE>) -> FE { FE::Call(f, args) }
+fn fand(v: Vec<FE>) -> FE { let mut it = v.into_iter(); let first = it.next().unwrap(); it.fold(first, |acc, e| fbin(B2::And, acc, e)) }
+impl FE {
+    fn sparql(&self, pool: &[T], r: &mut Rng) -> String {
+        match self {
+            FE::E(e) => e.sparql(pool, r),
+            FE::Call(f, args) => format!("{}({})", f.sparql(), args.iter().map(|a| a.sparql(pool, r)).collect::<Vec<_>>().join(", ")),
+            FE::Not(a) => format!("(!({}))", a.sparql(pool, r)),
+            FE::Bin(o, a, b) => { let (a, b) = (a.sparql(pool, r), b.sparql(pool, r));
+                match o { B2::SameTerm => format!("sameTerm({a}, {b})"), _ => format!("({a} {} {b})", match o { B2::Or => "||", B2::And => "&&", B2::Eq => "=", B2::Gt => ">", B2::Ge => ">=", B2::Lt => "<", B2::Le => "<=", B2::Add => "+", B2::Sub => "-", B2::Mul => "*", B2::Div => "/", B2::SameTerm => unreachable!() }) } }
+            FE::If(c, t, e) => format!("IF({}, {}, {})", c.sparql(pool, r), t.sparql(pool, r), e.sparql(pool, r)),
+            FE::Coalesce(l) => format!("COALESCE({})", l.iter().map(|e| e.sparql(pool, r)).collect::<Vec<_>>().join(", ")),
+        }
+    }
+    fn coq(&self) -> String {
+        let l = |v: &Vec<FE>| coq_list(v.iter().map(|e| e.coq()));
+        match self {
+            FE::E(e) => format!("(XE {})", e.coq()),
+            FE::Call(f, args) => format!("(XCall {} {})", f.coq(), l(args)),
+            FE::Not(a) => format!("(XNot {})", a.coq()),
+            FE::Bin(o, a, b) => { let (a, b) = (a.coq(), b.coq()); match o { B2::Or => format!("(XOr {a} {b})"), B2::And => format!("(XAnd {a} {b})"), B2::Eq => format!("(XEq {a} {b})"), B2::SameTerm => format!("(XSame {a} {b})"),
+                B2::Gt => format!("(XCmp CGt {a} {b})"), B2::Ge => format!("(XCmp CGe {a} {b})"), B2::Lt => format!("(XCmp CLt {a} {b})"), B2::Le => format!("(XCmp CLe {a} {b})"),
+                B2::Add => format!("(XAr AAdd {a} {b})"), B2::Sub => format!("(XAr ASub {a} {b})"), B2::Mul => format!("(XAr AMul {a} {b})"), B2::Div => format!("(XAr ADiv {a} {b})") } }
+            FE::If(c, t, e) => format!("(XIf {} {} {})", c.coq(), t.coq(), e.coq()),
+            FE::Coalesce(v) => format!("(XCoalesce {})", l(v)),
+        }
+    }
+    fn calls(&self, out: &mut Vec<Fu>) {
+        match self { FE::E(_) => {}, FE::Call(f, a) => { out.push(*f); a.iter().for_each(|e| e.calls(out)) }, FE::Not(a) => a.calls(out), FE::Bin(_, a, b) => { a.calls(out); b.calls(out) }
+            FE::If(a, b, c) => { a.calls(out); b.calls(out); c.calls(out) }, FE::Coalesce(l) => l.iter().for_each(|e| e.calls(out)) }
+    }
+}
+/// generator of (mostly well-typed) calls; leaves are pool terms bound through the BGP or written inline
+struct FG<'a> { g: Gen<'a>, mu: [Option<usize>; 4] }
+impl<'a> FG<'a> {
+    fn t(&mut self, i: usize) -> FE { FE::E(self.g.leaf_for(i, &mut self.mu)) }
+    fn c(&mut self, class: &str) -> FE { let i = self.g.of_class(class); self.t(i) }
+    fn pc(&mut self, classes: &[&str]) -> FE { let c = *self.g.r.pick(classes); self.c(c) }
+    fn any(&mut self) -> FE { if self.g.r.chance(1, 14) { FE::E(E::Var(3)) } else { let i = self.g.any_term(); self.t(i) } }
+    fn s_leaf(&mut self) -> FE { self.pc(&["fascii", "fascii", "funi", "funi", "flang", "flang", "string", "lang", "fneedle"]) }
+    fn n_leaf(&mut self) -> FE { self.pc(&["int", "int", "int", "decimal", "fdec", "fdbl", "fflt", "double", "double-special", "float", "int-boundary", "int-derived"]) }
+    /// a string-valued argument
+    fn s_arg(&mut self, d: usize) -> FE {
+        if d == 0 || self.g.r.chance(3, 5) { return self.s_leaf() }
+        let f = *self.g.r.pick(&[Fu::UCase, Fu::LCase, Fu::SubStr, Fu::Concat, Fu::Str, Fu::StrBefore, Fu::StrAfter, Fu::EncodeForUri, Fu::Lang]);
+        if f == Fu::Str { let a = self.any(); call(Fu::Str, vec![a]) } else { self.typed(f, d - 1) }
+    }
+    /// a number-valued argument
+    fn n_arg(&mut self, d: usize) -> FE {
+        if d == 0 || self.g.r.chance(3, 4) { return self.n_leaf() }
+        match self.g.r.below(4) { 0 => { let s = self.s_arg(d - 1); call(Fu::StrLen, vec![s]) } 1 => { let f = *self.g.r.pick(&[Fu::Abs, Fu::Ceil, Fu::Floor, Fu::Round]); self.typed(f, d - 1) }
+            2 => { let (a, b) = (self.n_arg(d - 1), self.n_arg(d - 1)); let o = *self.g.r.pick(&[B2::Add, B2::Sub, B2::Mul]); fbin(o, a, b) } _ => { let c = self.c("dateTime"); let f = *self.g.r.pick(&[Fu::Year, Fu::Month, Fu::Day, Fu::Hours, Fu::Minutes, Fu::Seconds]); call(f, vec![c]) } }
+    }
+    /// a call of f with arguments of the kinds f is defined on
+    fn typed(&mut self, f: Fu, d: usize) -> FE {
+        use Fu::*;
+        let args = match f {
+            Str | Lang | Datatype | IsIri | IsBlank | IsLiteral | IsNumeric | IsTriple | Custom => vec![if d > 0 && self.g.r.chance(1, 3) { if self.g.r.chance(1, 2) { self.s_arg(d) } else { self.n_arg(d) } } else { self.any() }],
+            LangMatches => { let t = if self.g.r.chance(1, 2) { let l = self.pc(&["flang", "lang", "fascii"]); call(Lang, vec![l]) } else { self.c("ftag") }; vec![t, self.c("frange")] }
+            Iri => vec![self.pc(&["firi-abs", "firi-abs", "firi-rel", "firi-bad", "iri", "flang"])],
+            BNode => if self.g.r.chance(1, 2) { vec![] } else { vec![self.s_arg(d)] },
+            Rand | Now | Uuid | StrUuid => vec![],
+            Abs | Ceil | Floor | Round => vec![self.n_arg(d)],
+            Concat => { let n = self.g.r.below(4); (0..n).map(|_| self.s_arg(d)).collect() }
+            SubStr => { let s = self.s_arg(d); let st = self.n_arg(d); if self.g.r.chance(1, 2) { vec![s, st] } else { let l = self.n_arg(d); vec![s, st, l] } }
+            StrLen | UCase | LCase | EncodeForUri | Md5 | Sha1 | Sha256 | Sha384 | Sha512 => vec![self.s_arg(d)],
+            Contains | StrStarts | StrEnds | StrBefore | StrAfter => { let h = self.s_arg(d); let n = if self.g.r.chance(2, 3) { self.c("fneedle") } else { self.s_arg(d) }; vec![h, n] }
+            Year | Month | Day | Hours | Minutes | Seconds | Timezone | Tz => vec![self.pc(&["dateTime", "dateTime", "dateTime", "dateTime-ill"])],
+            Triple => { let s = self.pc(&["iri", "bnode", "iri"]); let p = self.c("iri"); let o = self.any(); vec![s, p, o] }
+            Subject | Predicate | Object => vec![self.c("triple")],
+            Replace => vec![self.s_arg(d), self.c("fneedle"), self.c("fneedle")],
+            Regex => vec![self.s_arg(d), self.c("fneedle")],
+            StrLang => vec![self.c("fascii"), self.c("ftag")],
+            StrDt => vec![self.c("fascii"), self.c("iri")],
+        };
+        call(f, args)
+    }
+}
 const BINOPS: [B2; 12] = [B2::Eq, B2::SameTerm, B2::Lt, B2::Le, B2::Gt, B2::Ge, B2::Add, B2::Sub, B2::Mul, B2::Div, B2::Or, B2::And];
 
 fn main() {
-    std::panic::set_hook(Box::new(|_| {})); // panics of the engine are caught and reported per case
+    // panics of the engine are caught and reported per case; a panic of the harness itself is shown
+    std::panic::set_hook(Box::new(|i| { if i.location().is_some_and(|l| l.file().ends_with("c13e.rs")) { eprintln!("harness panic: {i}") } }));
     let a = parse_args();
     let pool_l = pool();
     let pool_t: Vec<T> = pool_l.iter().map(|p| p.1.clone()).collect();
@@ -575,18 +724,22 @@ fn main() {
         probe(&format!("({} + 0)", xs("-0", "unsignedByte"))) == Obs::Bound(Some(lit("0", "integer"))),
     ];
     let dt_panics = matches!(probe(&format!("({} = 1)", xs("99999999999-01-01T00:00:00", "dateTime"))), Obs::Panic(_));
-    let mut header = String::from("From Sophia.C13 Require Import ExprConcrete.\n");
+    let mut header = String::from("From Sophia.C13 Require Import ExprConcrete FuncConcrete.\n");
     header.push_str(&format!("Definition the_cfg : cfg := mkCfg {}.\n", cfg.iter().map(|b| coq_bool(*b)).collect::<Vec<_>>().join(" ")));
     for (i, t) in pool_t.iter().enumerate() { header.push_str(&format!("Definition t{i} : term := {}.\n", t.coq())); }
     header.push_str("Definition ck := expr_ok XC the_cfg.\n");
+    header.push_str("Definition fk (e : fexpr) (mu : amap) (lbl rnd : str) (obs : qres) : bool := fexpr_ok XC YC the_cfg (lbl, d_rust XC rnd) e mu obs.\n");
+    header.push_str("Definition fr (e : fexpr) (rows : list (amap * bool)) : bool := frows_ok XC YC the_cfg ([], d_rust XC [53; 101; 45; 49]) e rows.\n");
 
     let mut sum = Summary::default();
-    sum.rule = "case = (expression tree of depth <= 4 over a pool of ~190 terms covering every value class, well- and ill-formed; <= 3 variables bound through a BGP, one unbound, inline constants); streams: random trees / every binary operator x every pair of value classes / unary operators, functions and boolean contexts x every class / near-boundary integer arithmetic / the known deviations; non-trivial = the expression has an operator (not a bare leaf); distinct = distinct (expression text, solution)".into();
+    sum.rule = "case = (expression tree of depth <= 4 over a pool of ~190 terms covering every value class, well- and ill-formed; <= 3 variables bound through a BGP, one unbound, inline constants); streams: random trees / every binary operator x every pair of value classes / unary operators, functions and boolean contexts x every class / near-boundary integer arithmetic / the known deviations; non-trivial = the expression has an operator (not a bare leaf); distinct = distinct (expression text, solution).  Function calls (ids >= 2000000): 34 implemented functions x 51 term classes x argument positions / random nested calls / SUBSTR boundaries / 14 laws evaluated by the engine / 18 functions without implementation / multi-row FILTER through prepare_query / regression queries; every such case calls at least one function".into();
     sum.extra.push(("engine_repairs".into(), format!("{{\"C13e-1\": {}, \"C13e-2\": {}, \"C13e-3\": {}, \"C13e-4\": {}, \"C13e-5\": {}, \"C13e-6\": {}, \"C13e-7\": {}, \"C13e-8\": {}, \"C13e-9\": {}}}", cfg[0], cfg[1], cfg[2], cfg[3], cfg[4], cfg[5], cfg[6], !dt_panics, cfg[7])));
     if dt_panics {
         sum.oracle_failures.push(("probe".into(), format!("PANIC-DATETIME-YEAR: the query  SELECT ?r {{ BIND(({} = 1) AS ?r) }}  panics (XsdDateTime::new unwraps the i32 parse of a year that the regex does not bound); expected: the literal is ill-formed, '=' raises a type error, ?r unbound", xs("99999999999-01-01T00:00:00", "dateTime"))));
     }
 
+    let all_classes = classes.clone();
+    classes.truncate(classes.iter().position(|(n, _)| *n == FIRST_FN_CLASS).unwrap()); // the operator streams keep their pool
     let nc = classes.len();
     let base = Rng::new(a.seed);
     let mut cases = vec![]; let mut seen = HashSet::new();
@@ -607,6 +760,10 @@ fn main() {
         bin(B2::Add, k_("-0", "unsignedByte"), k_("1", "integer")),
         E::In(bx(k_("2", "integer")), vec![bin(B2::Div, k_("1", "integer"), k_("0", "integer")), k_("2", "integer")]),
         bin(B2::Div, k_("1e0", "double"), k_("0e0", "double")),
+        // a consequence of INF-OUTPUT found by the thorough tier: the computed INF is the TERM "inf"^^xsd:float, the same term as
+        // this ill-formed literal, so RDFterm-equal (17.4.1.7) answers true where the specification raises a type error
+        E::Coalesce(vec![E::Fn(F1::Str, bx(E::In(bx(bin(B2::Mul, k_("INF", "float"), k_("INF", "float"))), vec![E::Coalesce(vec![k_("inf", "float"), k_("0x1", "float")])]))), k_("0x1", "float")]),
+        bin(B2::SameTerm, bin(B2::Mul, k_("INF", "double"), k_("1e0", "double")), k_("inf", "double")),
     ];
     let range: Vec<usize> = match a.only { Some(i) => vec![i], None => (0..a.n).chain(WBASE..WBASE + witnesses.len()).collect() };
     let mut explained: BTreeMap<String, u64> = BTreeMap::new();
@@ -707,6 +864,247 @@ fn main() {
         if sum.samples.len() < 6 && e.size() > 3 && idx % 7 == 0 { sum.samples.push(format!("case {idx} [{stream}]: {descr} => ?r = {}, kept = {kept}", show_b(&bound))); }
         let c_mu = coq_list((0..3).filter_map(|v| mu[v].map(|i| format!("({}, t{i})", coq_str(VARS[v])))));
         cases.push((idx, format!("ck {} {} {} {}", e.coq(), c_mu, coq_opt(bound.as_ref().map(|t| t.coq())), coq_bool(kept))));
+    }
+
+    // =======================================================================================
+    // function calls (function.rs): case ids FBASE + j, regression cases RBASE + j
+    // =======================================================================================
+    const FBASE: usize = 2_000_000;
+    const RBASE: usize = 3_000_000;
+    let nf = a.n * 2 / 3;
+    let tix = |t: &T| pool_t.iter().position(|u| u == t).unwrap_or_else(|| panic!("not in the pool: {t:?}"));
+    let ks = |l: &str| FE::E(E::Const(tix(&lit(l, "string"))));
+    let kn = |l: &str, d: &str| FE::E(E::Const(tix(&lit(l, d))));
+    let sres = |l: &str| Some(lit(l, "string"));
+    // the queries that failed before a02a275 (SUBSTR) and 5a72fb8 (CEIL / FLOOR / ROUND) -- the witnesses of the Coq
+    // `_refuted` lemmas of FuncProofs.v -- with the answer SPARQL 1.1 / XPath F&O prescribe, and the known findings
+    let regressions: Vec<(&str, FE, Option<T>)> = vec![
+        ("substr-byte-index", call(Fu::SubStr, vec![ks("\u{e9}"), kn("2", "integer")]), sres("")),
+        ("substr-byte-index", call(Fu::SubStr, vec![ks("\u{e9}a"), kn("2", "integer")]), sres("a")),
+        ("substr-byte-index", call(Fu::SubStr, vec![ks("a\u{e9}"), kn("1", "integer"), kn("2", "integer")]), sres("a\u{e9}")),
+        ("substr-byte-index", call(Fu::SubStr, vec![ks("\u{e9}a"), kn("3", "integer")]), sres("")),
+        ("substr-rounding", call(Fu::SubStr, vec![ks("12345"), kn("-0.5e0", "double"), kn("3", "integer")]), sres("12")),
+        ("substr-rounding", call(Fu::SubStr, vec![ks("12345"), kn("-1.5e0", "double"), kn("4", "integer")]), sres("12")),
+        ("substr-overflow", call(Fu::SubStr, vec![ks("abc"), kn("1e30", "double"), kn("1e30", "double")]), sres("")),
+        ("substr-overflow", call(Fu::SubStr, vec![ks("abc"), kn("-INF", "double"), kn("5", "integer")]), sres("")),
+        ("substr-overflow", call(Fu::SubStr, vec![ks("abc"), kn("0", "integer"), kn("-INF", "double")]), sres("")),
+        ("substr-inf", call(Fu::SubStr, vec![ks("abc"), kn("-INF", "double"), kn("INF", "double")]), sres("")),
+        ("substr-inf", call(Fu::SubStr, vec![ks("abc"), kn("-INF", "double")]), sres("abc")),
+        ("substr-nan", call(Fu::SubStr, vec![ks("abc"), kn("NaN", "double")]), sres("")),
+        ("substr-nan", call(Fu::SubStr, vec![ks("abc"), kn("2", "integer"), kn("NaN", "double")]), sres("")),
+        ("substr-xpath-examples", call(Fu::SubStr, vec![ks("12345"), kn("1.5", "decimal"), kn("2.6", "decimal")]), sres("234")),
+        ("substr-xpath-examples", call(Fu::SubStr, vec![ks("12345"), kn("0", "integer"), kn("3", "integer")]), sres("12")),
+        ("substr-xpath-examples", call(Fu::SubStr, vec![ks("12345"), kn("5", "integer"), kn("-1", "integer")]), sres("")),
+        ("substr-xpath-examples", call(Fu::SubStr, vec![ks("12345"), kn("-1", "integer"), kn("INF", "double")]), sres("12345")),
+        ("ceil-floor-decimal", call(Fu::Ceil, vec![kn("3.0", "decimal")]), Some(lit("3.0", "decimal"))),
+        ("ceil-floor-decimal", call(Fu::Floor, vec![kn("3.0", "decimal")]), Some(lit("3.0", "decimal"))),
+        ("ceil-floor-decimal", call(Fu::Ceil, vec![kn("-3.0", "decimal")]), Some(lit("-3.0", "decimal"))),
+        ("ceil-floor-decimal", call(Fu::Floor, vec![kn("1.0", "decimal")]), Some(lit("1.0", "decimal"))),
+        ("round-decimal", call(Fu::Round, vec![kn("2.5", "decimal")]), Some(lit("3.0", "decimal"))),
+        ("round-decimal", call(Fu::Round, vec![kn("-1.5", "decimal")]), Some(lit("-1.0", "decimal"))),
+        ("round-decimal", call(Fu::Round, vec![kn("0.5", "decimal")]), Some(lit("1.0", "decimal"))),
+        ("round-decimal", call(Fu::Round, vec![kn("-0.5", "decimal")]), Some(lit("0.0", "decimal"))),
+        ("round-decimal", call(Fu::Round, vec![kn("-2.5", "decimal")]), Some(lit("-2.0", "decimal"))),
+        ("round-float", call(Fu::Round, vec![kn("-2.5e0", "double")]), Some(lit("-2e0", "double"))),
+        ("round-float", call(Fu::Round, vec![kn("-0.5e0", "double")]), Some(lit("-0e0", "double"))),
+        ("round-float", call(Fu::Round, vec![kn("0.5e0", "double")]), Some(lit("1e0", "double"))),
+        ("round-float", call(Fu::Round, vec![kn("0.49999999999999994e0", "double")]), Some(lit("0e0", "double"))),
+        ("round-float", call(Fu::Round, vec![kn("4503599627370497e0", "double")]), Some(lit("4.503599627370497e15", "double"))),
+        ("round-float", call(Fu::Round, vec![kn("-2.5", "float")]), Some(lit("-2e0", "float"))),
+        ("round-float", call(Fu::Round, vec![kn("-0.5", "float")]), Some(lit("-0e0", "float"))),
+        ("round-bigint", call(Fu::Round, vec![kn("9223372036854775808", "integer")]), Some(lit("9223372036854775808", "integer"))),
+        ("round-bigint", call(Fu::Ceil, vec![kn("-9223372036854775809", "integer")]), Some(lit("-9223372036854775809", "integer"))),
+        ("round-bigint", call(Fu::Floor, vec![kn("99999999999999999999", "integer")]), Some(lit("99999999999999999999", "integer"))),
+        ("round-bigint", call(Fu::Abs, vec![kn("-9223372036854775809", "integer")]), Some(lit("9223372036854775809", "integer"))),
+        ("round-bigint", call(Fu::Abs, vec![kn("-9223372036854775808", "integer")]), Some(lit("9223372036854775808", "integer"))),
+        ("computed-arguments", call(Fu::StrLen, vec![fbin(B2::Add, kn("1", "integer"), kn("1", "integer"))]), None),
+        ("computed-arguments", call(Fu::Iri, vec![fbin(B2::Add, kn("1", "integer"), kn("1", "integer"))]), None),
+        ("computed-arguments", call(Fu::StrLen, vec![call(Fu::Str, vec![fbin(B2::Add, kn("1", "integer"), kn("10", "integer"))])]), Some(lit("2", "integer"))),
+        ("langmatches-empty", call(Fu::LangMatches, vec![ks(""), ks("*")]), Some(lit("false", "boolean"))),
+        ("langmatches-empty", FE::Not(fb(call(Fu::LangMatches, vec![call(Fu::Lang, vec![ks("abc")]), ks("*")]))), Some(lit("true", "boolean"))),
+        ("bnode-arg", fbin(B2::SameTerm, call(Fu::BNode, vec![ks("a")]), call(Fu::BNode, vec![ks("a")])), Some(lit("true", "boolean"))),
+        ("not-implemented", call(Fu::StrLang, vec![ks("abc"), ks("en")]), None),
+        ("not-implemented", call(Fu::Regex, vec![ks("abc"), ks("b")]), None),
+        ("iri-relative", call(Fu::Iri, vec![ks("a")]), None),
+    ];
+    let frange: Vec<usize> = match a.only { Some(i) if i >= FBASE => vec![i], Some(_) => vec![], None => (FBASE..FBASE + nf).chain(RBASE..RBASE + regressions.len()).collect() };
+    let fn_classes: Vec<&'static str> = all_classes.iter().map(|c| c.0).collect();
+    let pool_bnodes: HashSet<String> = pool_t.iter().filter_map(|t| if let T::Bn(b) = t { Some(b.clone()) } else { None }).collect();
+    for idx in frange {
+        let mut g = FG { g: Gen { r: base.fork(idx as u64), pool: &pool_l, classes: &all_classes }, mu: [None; 4] };
+        let j = idx - if idx >= RBASE { RBASE } else { FBASE };
+        let k = j / 8;
+        let mut law: Option<String> = None;       // Some(class of a failure): the expression must evaluate to true
+        let mut expect: Option<T> = None;         // the term the specification prescribes (regression cases)
+        let mut rows: Option<Vec<usize>> = None;  // the multi-row FILTER stream: the terms ?a ranges over
+        let (stream, e): (&str, FE) = if idx >= RBASE {
+            if j >= regressions.len() { continue }
+            expect = regressions[j].2.clone();
+            match regressions[j].0 { "langmatches-empty" => law = Some("FUNC-LANGMATCHES-EMPTY".into()), "bnode-arg" => law = Some("FUNC-BNODE-ARG-IGNORED".into()), n => if expect.is_some() { law = Some(format!("FUNC-REGRESSION({n})")) } }
+            ("regression", regressions[j].1.clone())
+        } else { match j % 8 {
+            0 => { // every implemented function x every class of terms, in every argument position
+                let f = IMPLEMENTED[k % IMPLEMENTED.len()]; let cl = fn_classes[(k / IMPLEMENTED.len()) % fn_classes.len()]; let posn = k / (IMPLEMENTED.len() * fn_classes.len());
+                let FE::Call(_, mut args) = g.typed(f, 1) else { unreachable!() };
+                let odd = match g.g.r.below(12) { 0 => FE::E(E::Var(3)), 1 => { let (x, y) = (g.c("int"), g.c("int")); fbin(B2::Add, x, y) } 2 => { let (x, y) = (g.c("int"), g.c("int")); fbin(B2::Lt, x, y) } _ => g.c(cl) }; // unbound / a computed number / a computed boolean / a term of the class
+                if args.is_empty() { if f == Fu::Concat || f == Fu::BNode { args.push(odd) } } else { let p = (posn + g.g.r.below(args.len())) % args.len(); args[p] = odd }
+                ("fn-x-class", call(f, args))
+            }
+            1 | 2 => { // random nested, mostly well-typed calls under the operators
+                let f = *g.g.r.pick(&IMPLEMENTED); let d = g.g.r.range(1, 2); let inner = g.typed(f, d);
+                let w = if f == Fu::Rand { 8 } else if f == Fu::BNode { g.g.r.below(5) } else { g.g.r.below(9) };
+                ("random-calls", match w {
+                    0 => FE::Not(fb(inner)), 1 => { let o = g.any(); fbin(B2::Eq, inner, o) } 2 => { let s = g.s_arg(1); let o = *g.g.r.pick(&[B2::Eq, B2::Lt, B2::Ge, B2::SameTerm]); fbin(o, inner, s) }
+                    3 => { let n = g.n_arg(1); let o = *g.g.r.pick(&[B2::Add, B2::Lt, B2::Eq, B2::Mul]); fbin(o, inner, n) } 4 => { let (t, f2) = (g.s_arg(1), g.any()); FE::If(fb(inner), fb(t), fb(f2)) }
+                    5 => { let o = g.any(); FE::Coalesce(vec![inner, o]) }
+                    6 => { let f2 = *g.g.r.pick(&[Fu::Contains, Fu::StrStarts, Fu::IsLiteral, Fu::IsNumeric, Fu::LangMatches, Fu::StrLen, Fu::IsIri, Fu::Lang, Fu::Ceil]); let o = g.typed(f2, 1); let op = *g.g.r.pick(&[B2::Or, B2::And]); fbin(op, inner, o) }
+                    _ => inner })
+            }
+            3 => { // SUBSTR: boundary indices over every kind of string
+                let s = g.pc(&["fascii", "funi", "flang", "funi", "string", "lang"]);
+                fn num(g: &mut FG, tix: &dyn Fn(&T) -> usize) -> FE {
+                    match g.g.r.below(10) {
+                        0..=3 => { let l = g.g.r.ps(&["0", "1", "2", "3", "-1", "-5", "10", "100", "4", "5"]); g.t(tix(&lit(l, "integer"))) }
+                        4 | 5 => { let l = g.g.r.ps(&["1.5", "2.5", "-0.5", "0.5", "-1.5", "2.4", "2.6", "0.0", "3.0", "3.5"]); g.t(tix(&lit(l, "decimal"))) }
+                        6 | 7 => { let l = g.g.r.ps(&["-0.5e0", "-1.5e0", "0.5e0", "1.5e0", "1e30", "-1e30", "1e300", "0.49999999999999994e0", "3.5e0", "4e0", "2.5e0"]); g.t(tix(&lit(l, "double"))) }
+                        8 => g.pc(&["double-special", "float-special", "int-boundary", "fflt"]),
+                        _ => g.n_arg(1),
+                    }
+                }
+                let st = num(&mut g, &tix); let args = if g.g.r.chance(2, 5) { vec![s, st] } else { let l = num(&mut g, &tix); vec![s, st, l] };
+                ("substr-boundaries", call(Fu::SubStr, args))
+            }
+            4 | 5 => { // the laws a user relies on, evaluated by the engine: each must be true
+                let one = kn("1", "integer"); let zero = kn("0", "integer"); let empty = ks("");
+                let (name, e) = match k % 14 {
+                    0 => { let (x, y) = (g.s_leaf(), g.s_leaf()); ("strlen-concat", fbin(B2::Eq, call(Fu::StrLen, vec![call(Fu::Concat, vec![x.clone(), y.clone()])]), fbin(B2::Add, call(Fu::StrLen, vec![x]), call(Fu::StrLen, vec![y])))) }
+                    1 => { let (s, x) = (g.s_leaf(), g.c("fneedle")); let st = |e: FE| call(Fu::Str, vec![e]);
+                        ("before-after", FE::If(fb(call(Fu::Contains, vec![s.clone(), x.clone()])),
+                            fb(fbin(B2::Eq, call(Fu::Concat, vec![st(call(Fu::StrBefore, vec![s.clone(), x.clone()])), st(x.clone()), st(call(Fu::StrAfter, vec![s.clone(), x.clone()]))]), st(s.clone()))),
+                            fb(fand(vec![fbin(B2::SameTerm, call(Fu::StrBefore, vec![s.clone(), x.clone()]), empty.clone()), fbin(B2::SameTerm, call(Fu::StrAfter, vec![s, x]), empty.clone())])))) }
+                    2 => { let s = g.pc(&["fascii", "fascii", "string"]); let f = *g.g.r.pick(&[Fu::UCase, Fu::LCase]);
+                        ("case-idempotent-ascii", fand(vec![fbin(B2::SameTerm, call(f, vec![call(f, vec![s.clone()])]), call(f, vec![s.clone()])), fbin(B2::Eq, call(Fu::StrLen, vec![call(f, vec![s.clone()])]), call(Fu::StrLen, vec![s]))])) }
+                    3 => { let i = g.g.any_term(); let x = g.t(i); let fs = [Fu::IsIri, Fu::IsBlank, Fu::IsLiteral, Fu::IsTriple];
+                        let exactly = |i: usize| fand((0..4).map(|j| if i == j { call(fs[j], vec![x.clone()]) } else { FE::Not(fb(call(fs[j], vec![x.clone()]))) }).collect());
+                        ("term-kinds-partition", (1..4).fold(exactly(0), |acc, i| fbin(B2::Or, acc, exactly(i)))) }
+                    4 => { let s = g.c("firi-abs"); ("str-iri", fand(vec![fbin(B2::SameTerm, call(Fu::Str, vec![call(Fu::Iri, vec![s.clone()])]), s.clone()), call(Fu::IsIri, vec![call(Fu::Iri, vec![s])])])) }
+                    5 => { let s = g.s_leaf(); ("substr-from-1", fbin(B2::SameTerm, call(Fu::SubStr, vec![s.clone(), one.clone()]), s)) }
+                    6 => { let s = g.s_leaf(); let n = g.g.r.ps(&["0", "1", "2", "3", "10"]); let (n0, n1) = (kn(n, "integer"), fbin(B2::Add, kn(n, "integer"), one.clone()));
+                        let (pre, suf) = (call(Fu::SubStr, vec![s.clone(), one.clone(), n0]), call(Fu::SubStr, vec![s.clone(), n1]));
+                        ("substr-split", fand(vec![call(Fu::StrStarts, vec![s.clone(), pre.clone()]), call(Fu::StrEnds, vec![s.clone(), suf.clone()]), fbin(B2::SameTerm, call(Fu::Concat, vec![pre, suf]), s)])) }
+                    7 => { let x = g.pc(&["flang", "lang", "fascii", "string", "int", "funi"]); let lg = call(Fu::Lang, vec![x]);
+                        law = Some("FUNC-LANGMATCHES-EMPTY".into());
+                        ("langmatches-star", fbin(B2::Eq, call(Fu::LangMatches, vec![lg.clone(), ks("*")]), FE::Not(fb(fbin(B2::Eq, lg, empty.clone()))))) }
+                    8 => { let s = g.c("funres"); ("encode-unreserved", fbin(B2::SameTerm, call(Fu::EncodeForUri, vec![s.clone()]), s)) }
+                    9 => { let x = g.pc(&["fdec", "fdec", "decimal", "int", "fdbl", "fflt"]); let half = kn(".5", "decimal");
+                        let (c, f, r) = (call(Fu::Ceil, vec![x.clone()]), call(Fu::Floor, vec![x.clone()]), call(Fu::Round, vec![x.clone()]));
+                        ("ceil-floor-round", fand(vec![fbin(B2::Ge, c.clone(), x.clone()), fbin(B2::Lt, fbin(B2::Sub, c, x.clone()), one.clone()), fbin(B2::Le, f.clone(), x.clone()), fbin(B2::Lt, fbin(B2::Sub, x.clone(), f), one.clone()),
+                            fbin(B2::Le, fbin(B2::Sub, r.clone(), x.clone()), half.clone()), fbin(B2::Lt, fbin(B2::Sub, x, r), half)])) }
+                    10 => { let s = g.pc(&["fascii", "string", "fneedle"]); law = Some("FUNC-BNODE-ARG-IGNORED".into()); ("bnode-same-argument", fbin(B2::SameTerm, call(Fu::BNode, vec![s.clone()]), call(Fu::BNode, vec![s]))) }
+                    11 => { let (s, x) = (g.s_leaf(), g.c("fneedle")); // STRSTARTS / STRENDS imply CONTAINS; STRSTARTS = the first occurrence is at the start
+                        let (ct, ss, se) = (call(Fu::Contains, vec![s.clone(), x.clone()]), call(Fu::StrStarts, vec![s.clone(), x.clone()]), call(Fu::StrEnds, vec![s.clone(), x.clone()]));
+                        ("contains-starts-ends", fand(vec![fbin(B2::Or, FE::Not(fb(fbin(B2::Or, ss.clone(), se))), ct.clone()),
+                            fbin(B2::Eq, ss, fand(vec![ct, fbin(B2::Eq, call(Fu::StrLen, vec![call(Fu::StrBefore, vec![s, x])]), zero.clone())]))])) }
+                    12 => { let d = g.c("dateTime"); let dt = |f: Fu| call(f, vec![d.clone()]); // the fields are in their ranges
+                        let within = |e: FE, lo: &str, hi: &str| fand(vec![fbin(B2::Ge, e.clone(), kn(lo, "integer")), fbin(B2::Le, e, kn(hi, "integer"))]);
+                        ("datetime-fields", fand(vec![within(dt(Fu::Month), "1", "12"), within(dt(Fu::Day), "1", "31"), within(dt(Fu::Hours), "0", "23"), within(dt(Fu::Minutes), "0", "59"),
+                            fbin(B2::Ge, dt(Fu::Seconds), zero.clone()), fbin(B2::Lt, dt(Fu::Seconds), kn("60", "integer")), call(Fu::IsNumeric, vec![dt(Fu::Year)])])) }
+                    _ => ("rand-range", fand(vec![fbin(B2::Ge, call(Fu::Rand, vec![]), zero.clone()), fbin(B2::Lt, call(Fu::Rand, vec![]), one.clone()), fbin(B2::SameTerm, call(Fu::Datatype, vec![call(Fu::Rand, vec![])]), FE::E(E::Const(tix(&T::Iri(x("double"))))))])),
+                };
+                if law.is_none() { law = Some(format!("FUNC-LAW({name})")) }
+                ("laws", e)
+            }
+            6 => { // functions without implementation, on arguments they are defined on
+                let f = UNIMPLEMENTED[k % UNIMPLEMENTED.len()]; let inner = g.typed(f, 1);
+                ("not-implemented", if g.g.r.chance(1, 4) { FE::Not(fb(inner)) } else { inner })
+            }
+            _ => { // FILTER through SparqlDataset::prepare_query over several solutions: which rows survive
+                let n = g.g.r.range(3, 7);
+                let cl: Vec<&str> = match k % 4 { 0 => vec!["fascii", "funi", "flang", "string", "lang", "fneedle"], 1 => vec!["int", "fdec", "fdbl", "decimal", "double-special", "fflt"], 2 => vec!["dateTime", "dateTime", "dateTime-ill", "iri", "bnode", "triple", "flang"], _ => fn_classes.clone() };
+                let ts: Vec<usize> = (0..n).map(|_| { let c = *g.g.r.pick(&cl); g.g.of_class(c) }).collect();
+                g.mu[0] = Some(ts[0]); let va = FE::E(E::Var(0));
+                let e = match k % 4 {
+                    0 => match g.g.r.below(7) { 0 => { let x = g.c("fneedle"); call(Fu::Contains, vec![va, x]) } 1 => { let x = g.c("fneedle"); call(Fu::StrStarts, vec![call(Fu::UCase, vec![va]), x]) } 2 => { let r = g.c("frange"); call(Fu::LangMatches, vec![call(Fu::Lang, vec![va]), r]) }
+                        3 => fbin(B2::Gt, call(Fu::StrLen, vec![va]), kn("2", "integer")), 4 => { let x = g.c("fneedle"); fbin(B2::Eq, call(Fu::SubStr, vec![va, kn("2", "integer")]), x) } 5 => { let x = g.c("fneedle"); call(Fu::Regex, vec![va, x]) }
+                        _ => FE::Not(fb(call(Fu::LangMatches, vec![call(Fu::Lang, vec![va]), ks("*")]))) },
+                    1 => match g.g.r.below(4) { 0 => fbin(B2::Eq, call(Fu::Ceil, vec![va.clone()]), va), 1 => fbin(B2::Lt, call(Fu::Round, vec![va.clone()]), va), 2 => fbin(B2::Ge, call(Fu::Abs, vec![va]), kn("2", "integer")), _ => call(Fu::SubStr, vec![ks("abc"), va]) },
+                    2 => match g.g.r.below(4) { 0 => fbin(B2::Ge, call(Fu::Year, vec![va]), kn("2020", "integer")), 1 => call(Fu::IsTriple, vec![va]), 2 => call(Fu::IsIri, vec![call(Fu::Iri, vec![call(Fu::Str, vec![va])])]), _ => fbin(B2::Lt, call(Fu::Seconds, vec![va]), kn("1", "integer")) },
+                    _ => { let f = *g.g.r.pick(&[Fu::StrLen, Fu::UCase, Fu::IsLiteral, Fu::IsNumeric, Fu::Str, Fu::Lang, Fu::Datatype, Fu::Abs, Fu::Day, Fu::EncodeForUri]); call(f, vec![va]) }
+                };
+                rows = Some(ts);
+                ("filter-rows", e)
+            }
+        } };
+        let mut pr = g.g.r.fork(77);
+        let text = e.sparql(&pool_t, &mut pr);
+        let mu = g.mu;
+        let mut called = vec![]; e.calls(&mut called);
+        let unimpl: Option<Fu> = called.iter().copied().find(|f| UNIMPLEMENTED.contains(f));
+        sum.evaluations += 1;
+        sum.bump(&format!("stream:fn:{stream}"));
+        for f in &called { sum.bump(&format!("fn:{}", f.sparql())) }
+        let mu_show: Vec<String> = (0..3).filter_map(|v| mu[v].map(|i| format!("?{}={}", VARS[v], pool_t[i].show()))).collect();
+        let c_mu_of = |m: &[Option<usize>; 4]| coq_list((0..3).filter_map(|v| m[v].map(|i| format!("({}, t{i})", coq_str(VARS[v])))));
+        if let Some(ts) = rows {
+            // ---- several solutions, FILTER decides which survive; through prepare_query ----
+            let mut d = LightDataset::new(); let mut bgp = String::from("?s <tag:v> ?a . ");
+            for (i, t) in ts.iter().enumerate() { d.insert(&iri(&format!("tag:s{i}")), &iri("tag:v"), &pool_t[*t].to_st(), None::<&ST>).unwrap(); }
+            for v in 1..3 { if let Some(i) = mu[v] { d.insert(&iri("tag:k"), &iri(&format!("tag:p{}", VARS[v])), &pool_t[i].to_st(), None::<&ST>).unwrap(); bgp.push_str(&format!("<tag:k> <tag:p{0}> ?{0} . ", VARS[v])); } }
+            let q = format!("SELECT ?s {{ {bgp} FILTER({text}) }}");
+            let descr = format!("{} over ?a in [{}] with {{{}}}", text.replace(XSD, "xsd:"), ts.iter().map(|t| pool_t[*t].show()).collect::<Vec<_>>().join(", "), mu_show[1.min(mu_show.len())..].join(", "));
+            let res = std::panic::catch_unwind(std::panic::AssertUnwindSafe(|| -> Result<Vec<String>, String> {
+                let w = SparqlWrapper(&d);
+                let prepared = w.prepare_query(&q).map_err(|e| format!("prepare_query: {e}"))?;
+                match w.query(&prepared) { Ok(SparqlResult::Bindings(b)) => b.into_iter().map(|r| r.map(|r| T::from_term(r[0].as_ref().unwrap().borrow_term()).show()).map_err(|e| format!("row error: {e}"))).collect(), Ok(_) => Err("unexpected result kind".into()), Err(e) => Err(format!("query: {e}")) }
+            }));
+            let kept: Vec<bool> = match res {
+                Ok(Ok(names)) => (0..ts.len()).map(|i| names.contains(&format!("<tag:s{i}>"))).collect(),
+                Ok(Err(e)) => { if unimpl.is_some() && e.contains("Not implemented") { sum.bump("result:not-implemented-error"); } else { sum.oracle_failures.push((idx.to_string(), format!("ENGINE-ERROR: {descr}: {e}"))); } continue }
+                Err(p) => { let m = p.downcast_ref::<String>().cloned().or(p.downcast_ref::<&str>().map(|s| s.to_string())).unwrap_or_default(); sum.oracle_failures.push((idx.to_string(), format!("PANIC: {descr}: the query {q} panics: {m}"))); continue }
+            };
+            if let Some(f) = unimpl { sum.oracle_failures.push((idx.to_string(), format!("FUNC-NOT-IMPLEMENTED-SILENT({}): {descr}: FILTER keeps {} of {} solutions; the function has no implementation and the engine answers with an expression error instead of a NotImplemented error", f.kf_name(), kept.iter().filter(|b| **b).count(), kept.len()))); }
+            sum.bump_by("filter-rows:kept", kept.iter().filter(|b| **b).count() as u64); sum.bump_by("filter-rows:dropped", kept.iter().filter(|b| !**b).count() as u64);
+            if a.only.is_some() { println!("CASE {idx} [{stream}]: {q}\n  rows: {}\n  kept: {kept:?}\n  coq: {}", ts.iter().map(|t| pool_t[*t].show()).collect::<Vec<_>>().join(", "), e.coq()); }
+            if seen.insert(descr.clone()) { sum.distinct_nontrivial += 1; }
+            let c_rows = coq_list(ts.iter().zip(&kept).map(|(t, k)| { let mut m = mu; m[0] = Some(*t); format!("({}, {})", c_mu_of(&m), coq_bool(*k)) }));
+            cases.push((idx, format!("fr {} {}", e.coq(), c_rows)));
+            continue;
+        }
+        let (o1, o2, q1) = eval_engine(&pool_t, &mu, &text);
+        let descr = format!("{} with {{{}}}", text.replace(XSD, "xsd:"), mu_show.join(", "));
+        let show_b = |b: &Option<T>| b.as_ref().map(|t| t.show()).unwrap_or("unbound".into());
+        let panicked = matches!(o1, Obs::Panic(_)) || matches!(o2, Obs::Panic(_));
+        let (bound, kept) = match (&o1, &o2) {
+            (Obs::Bound(b), Obs::Kept(k)) => (b.clone(), *k),
+            _ if panicked => { sum.oracle_failures.push((idx.to_string(), format!("PANIC: {descr}: BIND query gave {o1:?}, FILTER query gave {o2:?}"))); sum.bump("result:panic"); (None, false) }
+            (Obs::Err(m), _) | (_, Obs::Err(m)) if unimpl.is_some() && m.contains("Not implemented") => { sum.bump("result:not-implemented-error"); continue }
+            _ => { sum.oracle_failures.push((idx.to_string(), format!("{}: {descr}: BIND query gave {o1:?}, FILTER query gave {o2:?}", if matches!(o1, Obs::Parse(_)) { "HARNESS-PARSE" } else { "ENGINE-ERROR" }))); sum.bump("result:no-answer"); continue }
+        };
+        // ---- oracle ----
+        if !panicked {
+            if let Some(f) = unimpl {
+                sum.oracle_failures.push((idx.to_string(), format!("FUNC-NOT-IMPLEMENTED-SILENT({}): {descr}: the engine binds {} and FILTER {} the solution; the function has no implementation and the engine answers with an expression error instead of a NotImplemented error", f.kf_name(), show_b(&bound), if kept { "keeps" } else { "drops" })));
+            } else if let Some(T::Iri(i)) = &bound { if !pool_t.contains(&T::Iri(i.clone())) && !i.split_once(':').is_some_and(|(s, _)| !s.is_empty() && s.chars().all(|c| c.is_ascii_alphanumeric() || "+-.".contains(c)) && s.chars().next().unwrap().is_ascii_alphabetic()) {
+                sum.oracle_failures.push((idx.to_string(), format!("FUNC-IRI-RELATIVE: {descr}: the engine binds the relative reference <{i}>, which is not an RDF term; 17.4.2.8: the argument is resolved against the base IRI of the query and must result in an absolute IRI")));
+            } }
+            if let Some(cls) = &law {
+                let want = expect.clone().unwrap_or(lit("true", "boolean"));
+                let ok = bound.as_ref().is_some_and(|b| b.same(&want));
+                if ok { sum.bump("law:holds") } else if unimpl.is_none() {
+                    sum.oracle_failures.push((idx.to_string(), format!("{cls}: {descr}: the engine binds {}; the specification gives {}", show_b(&bound), want.show())));
+                }
+            }
+        }
+        sum.bump(if panicked { "result:panic" } else if bound.is_some() { "result:bound" } else { "result:error" });
+        if kept { sum.bump("filter:kept") }
+        // ---- the model: the fresh blank node label / the random number are inputs ----
+        let lbl = match &bound { Some(T::Bn(b)) if !pool_bnodes.contains(b) => b.clone(), _ => String::new() };
+        let rnd = match (&e, &bound) { (FE::Call(Fu::Rand, _), Some(T::Lit(l, _))) => l.clone(), _ => "5e-1".to_string() };
+        let obs = if panicked { "QPanic".to_string() } else { format!("(QRows {} {})", coq_opt(bound.as_ref().map(|t| t.coq())), coq_bool(kept)) };
+        if a.only.is_some() { println!("CASE {idx} [{stream}]: {q1}\n  engine: ?r = {}, FILTER keeps = {kept}, panic = {panicked}\n  law: {law:?}\n  coq: fk {} ...", show_b(&bound), e.coq()); }
+        if seen.insert(descr.clone()) { sum.distinct_nontrivial += 1; }
+        if sum.samples.len() < 12 && j % 11 == 3 { sum.samples.push(format!("case {idx} [{stream}]: {descr} => ?r = {}, kept = {kept}", show_b(&bound))); }
+        cases.push((idx, format!("fk {} {} {} {} {}", e.coq(), c_mu_of(&mu), coq_str(&lbl), coq_str(&rnd), obs)));
     }
     if a.only.is_none() {
         sum.shards = write_shards(&a.out, &header, &cases, a.shards);
